@@ -407,7 +407,9 @@ def run_property(a, prop, scratch, t0):
     if prop == 'C02':
         import replaysearch
         for o in obls:
-            if o.status == 'undecided' and o.engine == 'verus' and o.unit in replaysearch.REFS and re.match(r'(not_extractable|anchor)', o.detail or ''):
+            if o.status == 'undecided' and o.unit in replaysearch.REFS and (
+                    (o.engine == 'verus' and re.match(r'(not_extractable|anchor)', o.detail or '')) or
+                    (o.engine == 'syntactic' and o.id.endswith('.skeleton'))):
                 w = replaysearch.verus_witness(o.unit, snap, scratch)
                 if w and w.get('witness'):
                     o.status = 'failed'
